@@ -525,6 +525,7 @@ var _ = jr.Open
 func init() {
 	core.Register(&core.Check{
 		ID: "C14", Level: "model_checking", Run: c14Run, Replay: c14Replay,
+		Added:       "wide include trees (21/81/141 files); extreme class on the real binary under 4 GiB / 20 s (INT32 flag values, 30 000-segment account, include doubling, /dev/zero); schedule class (valuation + --remap, transcode, loader error, deep diamond); free-running stress class (200-day growing journal, 8 files of 300 accruals; 9 commands)",
 		QuickBudget: 100 * time.Second, ThoroughBudget: 14 * time.Minute,
 		Rule: "10 command forms x {(i) every blank-joined sequence of <= d tokens over the 29-token alphabet of C07, 16 semantic error journals (invalid account type, bad date, zero price, inverted and one-day accrual window, bad commodity, huge number, empty/comment-only/NUL files, include of a directory/empty path/missing file), also as infer training file; " +
 			"(ii) all 512 include graphs on three files (self-loops, mutual includes) x syntax error in no/each file x {check, print, balance, infer}; (iii) ~130 flag vectors (absent -v, unknown commodity, inverted/out-of-range/invalid windows, --last -1, --digits -1/100, malformed -m, bad regexes, missing/extra arguments, broken universe file)}; " +
